@@ -35,7 +35,7 @@ FLOOR = {"logits&F>1": 1, "B=F": 1, "B=1&F>1": 1, "per-row-masks": 1, "form:tens
 
 
 def plan(tier, seed):
-    n = 14 if tier == "quick" else 1020
+    n = 28 if tier == "quick" else 1020
     cases = []
     for k in range(n):
         for kind in ("cat-logits", "cat", "gauss", "binomial", "mixed", "cat-zero"):
